@@ -7,6 +7,7 @@
    the contiguous encoding ending at e; [lays] forgets h and e. *)
 From Dns Require Import Model.Msg Spec.RfcSets Proofs.LayoutProofs Gen.Layouts.
 From Dns Require Import Spec.NameSpec Proofs.CompressProofs Proofs.CompressFieldsProofs Proofs.CompressMsgProofs.
+From Dns Require Proofs.LenMsgProofs.
 Open Scope list_scope.
 Open Scope N_scope.
 
@@ -55,13 +56,12 @@ Proof. exact (pack_name_extends s cap cp st st'). Qed.
 Print Assumptions pack_name_extends.
 
 (* the name is laid where it was packed with exactly the labels its text
-   denotes, whatever pointers were emitted; the library's decoder reads them
-   back, consuming exactly the emitted octets, when there are at most 126 labels *)
+   denotes, whatever pointers were emitted, and the library's decoder reads
+   them back, consuming exactly the emitted octets *)
 Theorem pack_name_lays s cap cp st st' :
   s <> [] -> st_inv st -> pack_name s cap cp st = Ok st' ->
   exists ls, parse_name s = Some ls /\ lays (pn_out st') (lenN (pn_out st)) ls /\
-    ((length ls <= 126)%nat ->
-     unpack_name (pn_out st') (lenN (pn_out st)) = Ok (show_name ls, lenN (pn_out st'))).
+    unpack_name (pn_out st') (lenN (pn_out st)) = Ok (show_name ls, lenN (pn_out st')).
 Proof. exact (pack_name_lays s cap cp st st'). Qed.
 Print Assumptions pack_name_lays.
 
@@ -89,19 +89,12 @@ Theorem pack_name_never_longer s cap cp st st' cap' :
 Proof. exact (pack_name_never_longer s cap cp st st' cap'). Qed.
 Print Assumptions pack_name_never_longer.
 
-(* UnpackDomainName on a laid name: at most 126 hops are followed *)
+(* UnpackDomainName on a laid name: up to 127 hops are followed *)
 Theorem laid_name_decodes out p ls h e :
-  laysn out p ls h e -> wire_len ls <= 255 -> (h <= 126)%nat ->
+  laysn out p ls h e -> wire_len ls <= 255 -> (h <= 127)%nat ->
   unpack_name out p = Ok (show_name ls, e).
 Proof. exact (lays_unpack out p ls h e). Qed.
 Print Assumptions laid_name_decodes.
-
-(* ... and is refused beyond: decodable exactly when the hops are at most 126 *)
-Theorem laid_name_with_127_hops_is_rejected out p ls h e :
-  laysn out p ls h e -> wire_len ls <= 255 -> (126 < h)%nat ->
-  unpack_name out p = Err "pointers".
-Proof. exact (lays_unpack_too_many_hops out p ls h e). Qed.
-Print Assumptions laid_name_with_127_hops_is_rejected.
 
 (* every hop lands on a label, so a name has at most as many hops as labels *)
 Theorem laid_name_hops_at_most_labels out p ls h e :
@@ -109,28 +102,36 @@ Theorem laid_name_hops_at_most_labels out p ls h e :
 Proof. exact (fun H => proj1 (laysn_hops out p ls h e H)). Qed.
 Print Assumptions laid_name_hops_at_most_labels.
 
-(* FINDING: without the hop bound the decoding clause is false.  A valid name
-   of 127 labels laid behind 127 hops is rejected by UnpackDomainName, and
-   packDomainName lays such a name when all its suffixes were packed before. *)
-Theorem laid_name_decodes_without_hop_bound_refuted :
-  ~ (forall out p ls, lays out p ls -> valid_wire ls = true -> exists r, unpack_name out p = Ok r).
-Proof. exact lays_unpack_refuted. Qed.
-Print Assumptions laid_name_decodes_without_hop_bound_refuted.
+(* a name of at most 255 wire octets has at most 127 labels, hence at most 127
+   hops: the decoder's limit is never exceeded by a laid name.  (A theorem that
+   128 hops are rejected would be vacuous at this level; the un_go-level lemma
+   un_go_laysn_err in Proofs/CompressProofs.v covers larger budgets.) *)
+Theorem laid_name_has_at_most_127_labels_and_hops out p ls h e :
+  laysn out p ls h e -> wire_len ls <= 255 -> (length ls <= 127)%nat /\ (h <= 127)%nat.
+Proof. exact (laysn_hops_127 out p ls h e). Qed.
+Print Assumptions laid_name_has_at_most_127_labels_and_hops.
 
-Theorem packed_127_label_name_is_undecodable_refuted :
-  match pack_all (map chain_name (seq 1 127)) {| pn_out := []; pn_cm := Some [] |} with
+(* so every laid name within the 255-octet limit is decodable *)
+Theorem laid_name_within_limit_decodes out p ls h e :
+  laysn out p ls h e -> wire_len ls <= 255 -> unpack_name out p = Ok (show_name ls, e).
+Proof. exact (lays_unpack_labels out p ls h e). Qed.
+Print Assumptions laid_name_within_limit_decodes.
+
+(* the edge of the limit at name level: a., a.a., ..., (a.)^127 packed in turn and
+   (a.)^127 once more; the last is a bare pointer and decodes through 127 hops *)
+Example chain_of_127_labels_decodes :
+  match pack_all chain_names {| pn_out := []; pn_cm := Some [] |} with
   | Ok st =>
-    match pack_name (chain_name 127) 4096 true st with
-    | Ok st' =>
-      parse_name (chain_name 127) = Some chain_labels /\ valid_wire chain_labels = true /\
-      length chain_labels = 127%nat /\
-      unpack_name (pn_out st') (lenN (pn_out st)) = Err "pointers"
-    | _ => False
-    end
+    let p := lenN (pn_out st) - 2 in
+    parse_name (chain_name 127) = Some chain_labels /\
+    valid_wire chain_labels = true /\ length chain_labels = 127%nat /\
+    laysb 400 (pn_out st) p chain_labels = true /\
+    laysb 400 (pn_out st) (p - 4) chain_labels = true /\
+    unpack_name (pn_out st) (p - 4) = Ok (chain_name 127, p) /\
+    unpack_name (pn_out st) p = Ok (chain_name 127, p + 2)
   | _ => False
   end.
-Proof. exact pack_name_undecodable_127. Qed.
-Print Assumptions packed_127_label_name_is_undecodable_refuted.
+Proof. exact chain_decodes. Qed.
 
 (* every pointer met while reading a laid name (reach: the positions visited,
    with the labels still to come) targets an earlier offset below 16384 that
@@ -177,52 +178,49 @@ Print Assumptions unflagged_rdata_name_is_plain.
 (* [msg_sites m buflen]: offset and text of every non-empty name packed by
    pack_msg_buf m buflen, in packing order (question names, owner names, names
    in RDATA); [msg_names m]: the name texts of the message, read off the
-   message and the field layouts; [msg_cap m buflen]: the buffer size Pack uses
-   (at least Len(uncompressed)+1); [uncompressed m]: m with Compress off.
+   message and the field layouts; [uncompressed m]: m with Compress off.
 
-   The hypothesis "the packed octets do not fill the buffer" excludes the
-   off == len(msg) early exit of packHeader, after which packRR patches
-   RDLENGTH into octets of the previous record.  It holds whenever Len() is an
-   upper bound of the packed length (cap >= Len+1); that bound is not proved
-   here, hence _partial. *)
+   [LenMsgProofs.msg_okb m] (property C08): every record has a known layout
+   whose len() terms cover its pack fields and well-formed option pairs.  For
+   such messages Len() bounds the packed length, the buffer has Len+1 octets at
+   least, and so the off == len(msg) early exit of packHeader (after which
+   packRR would patch RDLENGTH into the previous record) is never taken. *)
 
 (* no name is forgotten and each is laid with its own labels *)
-Theorem message_names_are_laid_partial m buflen w u :
-  pack_msg_buf m buflen = Ok (w, u) -> lenN w < msg_cap m buflen ->
+Theorem message_names_are_laid m buflen w u :
+  LenMsgProofs.msg_okb m = true -> pack_msg_buf m buflen = Ok (w, u) ->
   map snd (msg_sites m buflen) = filter nonempty (msg_names m) /\
   Forall (fun ps => exists ls, parse_name (snd ps) = Some ls /\ wire_len ls <= 255 /\ lays w (fst ps) ls)
          (msg_sites m buflen).
-Proof.
-  intros H Hlt. split; [|exact (msg_names_laid m buflen w u H Hlt)].
-  destruct (pack_msg_buf_st _ _ _ _ H) as [st [Hst ->]]. exact (msg_sites_texts m buflen st Hst Hlt).
-Qed.
-Print Assumptions message_names_are_laid_partial.
+Proof. exact (msg_names_laid_ok m buflen w u). Qed.
+Print Assumptions message_names_are_laid.
 
 (* full clause: packing with compression yields octets that decode to exactly
    the same message as packing without.  Proved: with and without compression
    the same names are packed in the same order, and each is laid in both
    outputs with exactly the labels its text denotes (octet for octet, case
-   preserved).  Missing: the buffer-full case (see above), the statement at the
-   level of unpack_msg, and names of 127 labels (refuted below). *)
+   preserved), which the library decoder reads back (next theorem).  Missing:
+   the statement at the level of unpack_msg (equality of the decoded messages,
+   which also needs the RDATA round trip of C01). *)
 Theorem compression_is_transparent_partial m buflen wc uc wu uu :
+  LenMsgProofs.msg_okb m = true ->
   pack_msg_buf m buflen = Ok (wc, uc) -> pack_msg_buf (uncompressed m) buflen = Ok (wu, uu) ->
-  lenN wu < msg_cap m buflen ->
   map snd (msg_sites m buflen) = filter nonempty (msg_names m) /\
   Forall2 (fun sc su : N * bytes => snd sc = snd su /\
              exists ls, parse_name (snd sc) = Some ls /\ wire_len ls <= 255 /\
                         lays wc (fst sc) ls /\ lays wu (fst su) ls)
           (msg_sites m buflen) (msg_sites (uncompressed m) buflen).
-Proof. exact (compression_is_transparent m buflen wc uc wu uu). Qed.
+Proof. exact (compression_is_transparent_ok m buflen wc uc wu uu). Qed.
 Print Assumptions compression_is_transparent_partial.
 
-(* the library's decoder reads every packed name of at most 126 labels back *)
-Theorem message_names_decode_partial m buflen w u p s :
-  pack_msg_buf m buflen = Ok (w, u) -> lenN w < msg_cap m buflen ->
+(* the library's decoder reads every packed name back *)
+Theorem message_names_decode m buflen w u p s :
+  LenMsgProofs.msg_okb m = true -> pack_msg_buf m buflen = Ok (w, u) ->
   In (p, s) (msg_sites m buflen) ->
   exists ls, parse_name s = Some ls /\ lays w p ls /\
-    ((length ls <= 126)%nat -> exists e, unpack_name w p = Ok (show_name ls, e)).
-Proof. exact (msg_names_decode m buflen w u p s). Qed.
-Print Assumptions message_names_decode_partial.
+    exists e, unpack_name w p = Ok (show_name ls, e).
+Proof. exact (msg_names_decode_ok m buflen w u p s). Qed.
+Print Assumptions message_names_decode.
 
 (* the compressed form is never longer (no side condition) *)
 Theorem compressed_never_longer m buflen wc uc wu uu :
@@ -233,9 +231,9 @@ Print Assumptions compressed_never_longer.
 
 (* every pointer met while reading a name of the packed message targets an
    earlier offset below 16384 that holds a label octet, at which a non-empty
-   suffix of that name is laid.  Missing: the buffer-full case. *)
-Theorem pointers_target_earlier_suffixes_partial m buflen w u ps ls p' ls' :
-  pack_msg_buf m buflen = Ok (w, u) -> lenN w < msg_cap m buflen ->
+   suffix of that name is laid *)
+Theorem pointers_target_earlier_suffixes m buflen w u ps ls p' ls' :
+  LenMsgProofs.msg_okb m = true -> pack_msg_buf m buflen = Ok (w, u) ->
   In ps (msg_sites m buflen) -> parse_name (snd ps) = Some ls ->
   reach w (fst ps) ls p' ls' -> 192 <= nthN w p' 0 ->
   (nthN w p' 0 - 192) * 256 + nthN w (p' + 1) 0 < p' /\
@@ -243,41 +241,45 @@ Theorem pointers_target_earlier_suffixes_partial m buflen w u ps ls p' ls' :
   1 <= nthN w ((nthN w p' 0 - 192) * 256 + nthN w (p' + 1) 0) 0 < 64 /\
   ls' <> [] /\ lays w ((nthN w p' 0 - 192) * 256 + nthN w (p' + 1) 0) ls' /\
   exists pre, ls = pre ++ ls'.
-Proof. exact (msg_pointers_target_earlier_suffixes m buflen w u ps ls p' ls'). Qed.
-Print Assumptions pointers_target_earlier_suffixes_partial.
+Proof. exact (msg_pointers_ok m buflen w u ps ls p' ls'). Qed.
+Print Assumptions pointers_target_earlier_suffixes.
 
 (* the map the packer ends with satisfies the invariant *)
-Theorem final_compression_map_invariant_partial m buflen st :
-  pack_msg_st m buflen = Ok st -> lenN (pn_out st) < msg_cap m buflen -> st_inv st.
-Proof. exact (msg_final_map_inv m buflen st). Qed.
-Print Assumptions final_compression_map_invariant_partial.
+Theorem final_compression_map_invariant m buflen w u :
+  LenMsgProofs.msg_okb m = true -> pack_msg_buf m buflen = Ok (w, u) ->
+  exists st, pack_msg_st m buflen = Ok st /\ w = pn_out st /\ st_inv st.
+Proof. exact (msg_final_map_inv_ok m buflen w u). Qed.
+Print Assumptions final_compression_map_invariant.
 
-(* FINDING at message level: Pack with compression of 128 A records owned by
-   a., a.a., ..., (a.)^127, (a.)^127 succeeds inside the buffer, every name is
-   valid, the last owner is laid with its 127 labels but behind 127 hops, and
-   the library's own Unpack fails on it *)
-Theorem compression_transparent_for_127_labels_refuted :
+(* the edge of the hop limit (this message was rejected by Unpack before
+   maxCompressionPointers was repaired to 127): 128 A records owned by a., a.a.,
+   ..., (a.)^127, (a.)^127 pack with compression, the last owner is a bare pointer
+   read through 127 hops, and Unpack returns the same owners without error *)
+Example chain_message_roundtrips :
   match pack_msg_buf chain_msg 0 return Prop with
   | Ok (w, _) =>
-    lenN w < msg_cap chain_msg 0 /\
+    LenMsgProofs.msg_okb chain_msg = true /\
     forallb (fun s => match parse_name s with Some ls => valid_wire ls | None => false end)
             (msg_names chain_msg) = true /\
     match rev (msg_sites chain_msg 0) return Prop with
     | (p, s) :: _ => s = chain_name 127 /\ laysb 400 w p chain_labels = true /\
-                     unpack_name w p = Err "pointers"
+                     unpack_name w p = Ok (chain_name 127, p + 2)
     | [] => False
     end /\
-    match unpack_msg w return Prop with Ok (_, failed) => failed = true | _ => False end
+    match unpack_msg w return Prop with
+    | Ok (m', failed) => failed = false /\ map rr_name (m_answer m') = chain_names
+    | _ => False
+    end
   | _ => False
   end.
-Proof. exact chain_msg_witness. Qed.
-Print Assumptions compression_transparent_for_127_labels_refuted.
+Proof. exact chain_msg_roundtrip. Qed.
 
 (* non-vacuity: a message whose compressed and uncompressed packings satisfy
    the hypotheses above, with four of its six names compressed *)
 Example message_level_hypotheses_satisfiable :
   match pack_msg_buf ex_msg 0, pack_msg_buf (uncompressed ex_msg) 0 with
   | Ok (wc, _), Ok (wu, _) =>
+    LenMsgProofs.msg_okb ex_msg = true /\
     lenN wc = 92 /\ lenN wu = 143 /\ lenN wu < msg_cap ex_msg 0 /\
     map fst (msg_sites ex_msg 0) = [12; 29; 41; 47; 69; 76] /\
     map fst (msg_sites (uncompressed ex_msg) 0) = [12; 29; 52; 69; 94; 112] /\
